@@ -13,7 +13,8 @@
              one yield = [coord; payload; origin]    (co: [coord; [payloads]; [origins]])
              origin = position of the yielded payload *object* in the fiber afterwards, -1 = fresh
      post    the stored elements of every fiber involved, after the operation
-     saved   getSavedPos() of the (first) fiber afterwards — compared with the model, not
+     saved   getSavedPos() of the (first) fiber afterwards (project / prune: [saved; stored
+             elements of Fiber.fromLazy(lazy)]) — compared with the model, not
              demanded by the oracle. *)
 From Coq Require Import ZArith List Bool.
 From FT Require Import Model.Base Model.Obs Model.C07Iter.
@@ -32,7 +33,8 @@ Inductive op :=
 | OpCoActiveShape (ref : bool)
 | OpCoRangeShape (lo hi step : Z) (ref : bool)
 | OpProject (k b : Z) (iv : option (Z * Z)) (sp : option Z)   (* project(c -> k*c+b, interval) *)
-| OpPrune (p : pred) (sp : option Z).                (* prune(pred) *)
+| OpPrune (p : pred) (sp : option Z)                 (* prune(pred) *)
+| OpWindow (k b : Z) (iv : option (Z * Z)) (lo hi : option Z).   (* project(...).iterRange(lo, hi) *)
 
 Record c07_case := {
   k_fiber  : fiber;
@@ -72,9 +74,16 @@ Definition m_single (f : fiber) (r : option (list yelem)) (saved : Z) : V :=
   obs_op (V_res (option_map (fun ys => [Vl V_y ys]) r)) [f_es f]
          (match r with Some _ => saved | None => 0 end).
 
+(* project / prune: the third slot also carries the stored elements of Fiber.fromLazy(lazy) as
+   they are (sub-fibers are copied without their empty elements); the oracle only demands
+   their content *)
+Definition m_fromlazy (f : fiber) (ys : list yelem) : fib :=
+  from_lazy (f_d f) (dflt (f_d f) (f_es f)) ys.
+
 Definition m_lazy (f : fiber) (r : option (list yelem)) (saved : Z) : V :=
-  obs_op (V_res (option_map (fun ys => [Vl V_y ys; Vl V_y ys; V_content (f_d f) (from_lazy ys)]) r))
-         [f_es f] saved.
+  VL [V_res (option_map (fun ys => [Vl V_y ys; Vl V_y ys; V_content (f_d f) (m_fromlazy f ys)]) r);
+      Vl V_snap [f_es f];
+      VL [VZ saved; match r with Some ys => V_snap (m_fromlazy f ys) | None => VL [] end]].
 
 Definition m_shape (f : fiber) (cs : list Z) (ref : bool) : V :=
   if ref
@@ -107,6 +116,7 @@ Definition model_op (f : fiber) (others : list fib) (o : op) : V :=
       m_co f others (op_cs f o) ref
   | OpProject k b iv sp => m_lazy f (project f k b iv sp) (project_saved f k b iv sp)
   | OpPrune p sp => m_lazy f (prune f (pred_eval p) sp) (prune_saved f sp)
+  | OpWindow k b iv lo hi => m_single f (project_window f k b iv lo hi) 0
   end.
 
 Definition c07_model (c : c07_case) : V :=
@@ -162,7 +172,7 @@ Definition spec_co_ref (d : Z) (fs : list fib) (cs : list Z) : list coelem :=
 
 (* "default iteration follows the rank's format" *)
 Definition spec_default_iter (f : fiber) : list yelem :=
-  if f_isU f
+  if fmt_U f
   then spec_shape (f_d f) (f_es f) (zrange (fst (get_active f)) (snd (get_active f)) 1)
   else spec_range (f_d f) None None (f_es f).
 
@@ -215,6 +225,9 @@ Definition spec_op (f : fiber) (others : list fib) (o : op) : V :=
     else s_obs [Vl V_co (spec_co d fs cs); Vl V_co (spec_co d fs cs)] fs
   | OpProject k b iv _ => s_lazy f (spec_project f k b iv)
   | OpPrune p _ => s_lazy f (spec_prune f (pred_eval p))
+  (* the window of the projection: its elements with the new coordinate in [lo, hi) *)
+  | OpWindow k b iv lo hi =>
+    s_obs [Vl V_y (filter (fun y => in_range lo hi (ycoord y)) (spec_project f k b iv))] [es]
   end.
 
 Definition c07_spec (c : c07_case) : V := Vl (spec_op (k_fiber c) (k_others c)) (k_ops c).
@@ -251,7 +264,7 @@ Definition wf_op (f : fiber) (o : op) : bool :=
   | OpOcc sp => legal_sp d es (below None) sp
   | OpRange lo _ sp => legal_sp d es (below lo) sp
   | OpActive sp => legal_sp d es (below (Some (fst (get_active f)))) sp
-  | OpIter sp => f_isU f || legal_sp d es (below None) sp
+  | OpIter sp => fmt_U f || legal_sp d es (below None) sp
   | OpShape _ | OpActiveShape _ | OpCoShape _ | OpCoActiveShape _ => true
   | OpRangeShape _ _ step _ | OpCoRangeShape _ _ step _ => 1 <=? step
   | OpProject k b iv sp =>
@@ -262,16 +275,18 @@ Definition wf_op (f : fiber) (o : op) : bool :=
                 legal_sp d es (fun c => match iv with Some (lo, _) => k * c + b <? lo
                                                  | None => false end) sp
     end
+  | OpWindow k _ _ _ _ => negb (k =? 0)
   | OpPrune p sp => (1 <=? p_m p) &&
                     match sp with
                     | None => true
                     | Some q => (0 <=? q) && (q <? zlen es) &&
-                                (f_isU f || legal_sp d es (below None) sp)
+                                (fmt_U f || legal_sp d es (below None) sp)
                     end
   end.
 
 Definition c07_wf (c : c07_case) : bool :=
   ssorted (map fst (f_es (k_fiber c))) &&
+  forallb (fun ct => sorted_t (snd ct)) (f_es (k_fiber c)) &&     (* sub-fibers ascending too *)
   forallb (fun es => ssorted (map fst es)) (k_others c) &&
   forallb (wf_op (k_fiber c)) (k_ops c).
 
